@@ -156,6 +156,10 @@ def body(task, ins, params):
         persisted[p['name']] = _plain(v)
     for name in spec.get('registry_pulls', []):
         ins[name] = task.input_tasks[name].value
+    for name in spec.get('opt_pulls', []):     # an optional input: read when the chain has wired a task for it
+        for k, v in dict.items(task.input_tasks):
+            if (k == name or k.endswith('::' + name)) and v is not None:
+                ins[name] = v.value
     kind = spec['kind']
     tree = {'t': spec['slug'], 'p': persisted,
             'i': {k: (_totree(spec['input_kinds'].get(k), v)) for k, v in ins.items()}}
